@@ -168,12 +168,28 @@ func (tx *Tx) Commit() error {
 		countFlag = CountFlagDisabled
 	}
 
+	// Refuse the whole transaction before anything is written if one of its
+	// entries can never fit into a segment.
+	for i := 0; i < writesLen; i++ {
+		if tx.pendingWrites[i].Size() > tx.db.opt.SegmentSize {
+			return ErrKeyAndValSize
+		}
+	}
+
+	// In the RAM index modes the hint index is only updated once every entry
+	// of the transaction is on disk, so that a commit that fails half way
+	// leaves all reads unchanged.
+	type pendingHint struct {
+		bucket   string
+		entry, e *Entry
+		off      int64
+		fileID   int64
+	}
+	var pendingHints []pendingHint
+
 	for i := 0; i < writesLen; i++ {
 		entry := tx.pendingWrites[i]
 		entrySize := entry.Size()
-		if entrySize > tx.db.opt.SegmentSize {
-			return ErrKeyAndValSize
-		}
 
 		bucket := string(entry.Meta.bucket)
 
@@ -232,8 +248,16 @@ func (tx *Tx) Commit() error {
 		}
 
 		if entry.Meta.ds == DataStructureBPTree {
-			tx.buildBPTreeIdx(bucket, entry, e, off, countFlag)
+			if tx.db.opt.EntryIdxMode == HintBPTSparseIdxMode {
+				tx.buildBPTreeIdx(bucket, entry, e, off, tx.db.ActiveFile.fileID, countFlag)
+			} else {
+				pendingHints = append(pendingHints, pendingHint{bucket, entry, e, off, tx.db.ActiveFile.fileID})
+			}
 		}
+	}
+
+	for _, h := range pendingHints {
+		tx.buildBPTreeIdx(h.bucket, h.entry, h.e, h.off, h.fileID, countFlag)
 	}
 
 	tx.buildIdxes(writesLen)
@@ -370,12 +394,12 @@ func (tx *Tx) buildIdxes(writesLen int) {
 	}
 }
 
-func (tx *Tx) buildBPTreeIdx(bucket string, entry, e *Entry, off int64, countFlag bool) {
+func (tx *Tx) buildBPTreeIdx(bucket string, entry, e *Entry, off int64, fileID int64, countFlag bool) {
 	if tx.db.opt.EntryIdxMode == HintBPTSparseIdxMode {
 		newKey := []byte(bucket)
 		newKey = append(newKey, entry.Key...)
 		tx.db.ActiveBPTreeIdx.Insert(newKey, e, &Hint{
-			fileID:  tx.db.ActiveFile.fileID,
+			fileID:  fileID,
 			key:     newKey,
 			meta:    entry.Meta,
 			dataPos: uint64(off),
@@ -389,7 +413,7 @@ func (tx *Tx) buildBPTreeIdx(bucket string, entry, e *Entry, off int64, countFla
 			tx.db.BPTreeIdx[bucket] = NewTree()
 		}
 		_ = tx.db.BPTreeIdx[bucket].Insert(entry.Key, e, &Hint{
-			fileID:  tx.db.ActiveFile.fileID,
+			fileID:  fileID,
 			key:     entry.Key,
 			meta:    entry.Meta,
 			dataPos: uint64(off),
